@@ -5,7 +5,7 @@ against the extracted Model.Anim.run_ops); search = every call of every generate
 delivers, buffers pre-filled with a sentinel."""
 import json
 import vflib
-from checks.common import correspondence, sample_cases
+from checks.common import correspondence, sample_cases, run_components
 
 KNOWN_CLASS = 'opaque-source-decrement'
 PROP = 'C07'
@@ -49,6 +49,11 @@ def check(run):
                        not stats.get('libwebp_anim_adequacy_mismatch') and stats.get('generator_rejected', 0) == 0,
                        json.dumps(stats.get('libwebp_anim_adequacy_mismatch', []))[:600])
             found = decide(run, stats)
+        # the same clauses under reader schedules and one transient I/O fault: the k-th *successful* read_frame is the k-th frame,
+        # read_image (also in the middle of playback) is the first frame, the first frame after a reset is frame 1
+        agg2, found2 = run_components(run, [{'name': 'c10', 'oracle': False, 'escalate': False,
+                                             'what': 'API call sequences under reader schedules and one transient fault (k-th successful read_frame = k-th frame)'}], proofs_ok=proofs_ok)
+        found = found or found2
     failed = [o for o in run.obligations if not o[1]]
     if failed and not found:
         run.violation('obligation', {'what': 'proof obligation or model/code tie no longer checks; search found no failing input',
